@@ -30,11 +30,11 @@ def _corpus():
 
 
 def _turns(c):
-    return [b''.join(s[1]) for s in c['steps'] if s[0] == 'peer']
+    return [b''.join(s[1]) for s in c['steps'] if s[0] in ('peer', 'peer+fin')]
 
 
 def _pdu_bounds(c, turn):
-    pd = [s[1] for s in c['steps'] if s[0] == 'peer'][turn]
+    pd = [s[1] for s in c['steps'] if s[0] in ('peer', 'peer+fin')][turn]
     out, p = [], 0
     for x in pd:
         p += len(x)
